@@ -26,6 +26,47 @@ def setup(two):
   G_satX0 = sat(&G_X.s); G_satY0 = sat(&G_Y.s);"""
     return s
 
+# ---------------------------------------------------------------- boxes (Box<Interval<intN, Info>>)
+BOX_ROOTS = "re:^(w_b_|w_OK$|w_add$|ENC_|POL_|LOWER_|UPPER_|STORE_|MAY_|BST_)"
+BOX_OPS1 = ["is_empty", "is_universe", "is_bounded", "is_discrete", "is_topologically_closed", "topological_closure"]
+BOX_OPS2 = ["contains", "strictly_contains", "is_disjoint_from", "equal", "intersection", "upper_bound", "upper_bound_if_exact", "difference"]
+BOX_VOID = {"intersection", "upper_bound", "difference", "topological_closure", "unconstrain"}
+def box_unit(tt, pol, prop="C03"):
+    from C12 import POLS
+    cxx, w, sg = TYPES[tt]
+    return Unit(prop, "box_%s_%s" % (tt, pol), "units/C03/box.cc", defs={"VB": cxx, "VPOL": POLS[pol], "T_W": w, "T_SIGNED": sg}, roots=BOX_ROOTS,
+                cut=["re:Box<.*>::throw_"], stubs=["common.c"], type_aliases={"ITV_T": ("w_add", 0), "BOX_T": ("w_b_OK", 0)},
+                global_aliases={"BOX_STOPS": r"Box<.*>::CC76_widening_assign.*::stop_points$"},
+                aliases={"FN_b_unconstrain": r"Box<.*>::unconstrain\(Parma_Polyhedra_Library::Variable\)$"})
+def box_vars():
+    return [Var("ITV_T", "xs0"), Var("ITV_T", "xs1"), Var("ITV_T", "ys0"), Var("ITV_T", "ys1"), Var("uint32_t", "fx"), Var("uint32_t", "fy"),
+            Var("int32_t", "pn0"), Var("int32_t", "pn1"), Var("int8_t", "ps0"), Var("int8_t", "ps1")]
+BOX_SETUP = """  G_xs[0] = xs0; G_xs[1] = xs1; G_ys[0] = ys0; G_ys[1] = ys1;
+  BOX_BEGIN(&G_bx) = G_xs; BOX_END(&G_bx) = G_xs + BOX_D; BOX_CAP(&G_bx) = G_xs + BOX_D; BOX_FLAGS(&G_bx) = fx;
+  BOX_BEGIN(&G_by) = G_ys; BOX_END(&G_by) = G_ys + BOX_D; BOX_CAP(&G_by) = G_ys + BOX_D; BOX_FLAGS(&G_by) = fy;
+  G_pn[0] = pn0; G_pn[1] = pn1; G_ps[0] = ps0; G_ps[1] = ps1;
+  __CPROVER_assume(box_wf(&G_bx, G_xs) && box_wf(&G_by, G_ys) && pt_ok());
+  G_xs0[0] = G_xs[0]; G_xs0[1] = G_xs[1]; G_fx0 = fx;
+  G_satX0 = box_sat(&G_bx, G_xs); G_satY0 = box_sat(&G_by, G_ys); G_emptyX0 = box_empty(&G_bx, G_xs); G_emptyY0 = box_empty(&G_by, G_ys);"""
+def box_tasks(u, tt, pol, dims):
+    T = []; w = u.defs["T_W"]
+    for d in dims:
+        bound = {"unwind": d + 2, "note": "space dimension %d; interval bounds, special/open bits, status flags and ghost point arbitrary; loops unwound with unwinding assertions" % d}
+        kw = dict(bounded=bound, timeout=1800, object_bits=9, defs={"BOX_D": d, "GHOST_RANGE": "((ex_t)%d)" % (1 << (w + 1))}, split_post=True,
+                  stubs=["c12_ghost.c", "c17_ghost.c", "c03_box.c"], harness_pre=BOX_SETUP, group="box %s %s" % (tt, pol))
+        for op in BOX_OPS1:
+            call = ("FN_b_%s(&G_bx)" if op in BOX_VOID else "_Bool r = FN_b_%s(&G_bx)") % op
+            T.append(Task("box/%s/%s/%s/dim%d" % (tt, pol, op, d), u, "FN_b_" + op, ["C03/box.h"], box_vars(), call,
+                          reach=[("point inside", "G_satX0"), ("x empty but not marked", "G_emptyX0 && !(fx & BST_EMPTY)")] if d > 0 else [], **kw))
+        for op in BOX_OPS2:
+            call = ("FN_b_%s(&G_bx, &G_by)" if op in BOX_VOID else "_Bool r = FN_b_%s(&G_bx, &G_by)") % op
+            T.append(Task("box/%s/%s/%s/dim%d" % (tt, pol, op, d), u, "FN_b_" + op, ["C03/box.h"], box_vars(), call,
+                          reach=[("point in both", "G_satX0 && G_satY0")] if d > 0 else [], **kw))
+        if d > 0:
+            T.append(Task("box/%s/%s/unconstrain/dim%d" % (tt, pol, d), u, "FN_b_unconstrain", ["C03/box.h"], box_vars() + [Var("uint64_t", "v")], "FN_b_unconstrain(&G_bx, v)",
+                          reach=[("point inside", "G_satX0")], **kw))
+    return T
+
 def build(tier):
     units = []; T = []
     types = ["s8"] if tier == "quick" else ["s8", "s32"]
@@ -47,15 +88,18 @@ def build(tier):
                 if not heavy_ok and name != "intersection": continue
                 T.append(Task("bds/%s/%s/dim%d" % (tt, name, d), u, "FN_" + name, ["C03/bds.h"], [], call, harness_pre=setup(True),
                               reach=[("point in both", "G_satX0 && G_satY0")], **kw))
+    for (tt, pol) in ([("s8", "nat"), ("s8", "rat")] if tier == "quick" else [(t, p) for t in ("s8", "s32") for p in ("nat", "rat")]):
+        u = box_unit(tt, pol); units.append(u)
+        T += box_tasks(u, tt, pol, [1, 2] if tier == "quick" else [0, 1, 2])
     return units, T
 
 def main(tier, only=None):
     units, tasks = build(tier)
     if only: tasks = [t for t in tasks if only in t.id]; units = [u for u in units if any(t.unit is u for t in tasks)]
     return run_check("C03", tier, tasks, units, "other",
-                     trusted_base=["clang 14 front end + LLVM mem2reg", "tools/ll2c.py (IR -> C)", "CBMC 6.11 / cadical", "stubs/common.c", "stubs/c03.c"],
-                     extra_assumptions=["operations taking Linear_Expression / Constraint / Generator / another domain (affine transformers, converting constructors: GMP coefficients), the float and GMP instantiations, octagons and boxes are NOT covered by this check (boxes' interval layer: C12)"],
-                     explanation="bounded-dimension CBMC code contracts with a ghost point on BD_Shape<native integer> operations extracted from the real headers",
+                     trusted_base=["clang 14 front end + LLVM mem2reg", "tools/ll2c.py (IR -> C)", "CBMC 6.11 / cadical", "stubs/common.c", "stubs/c03.c", "stubs/c03_box.c"],
+                     extra_assumptions=["operations taking Linear_Expression / Constraint / Generator / another domain (affine transformers, refinements, converting constructors: GMP coefficients), the float and GMP instantiations and octagons are NOT covered by this check", "boxes: only the operations whose operands are boxes (comparisons, predicates, meet, join, difference, closure, unconstrain) in space dimension <= 2, soundness clauses only; their interval layer is check C12", "box status: the UNIVERSE bit is assumed clear (no Box code sets it)"],
+                     explanation="bounded-dimension CBMC code contracts with a ghost point on BD_Shape<native integer> and Box<Interval<native integer>> operations extracted from the real headers",
                      max_workers=5)
 
 if __name__ == "__main__":
